@@ -441,8 +441,9 @@ def work(desc: dict) -> Optional[dict]:
     line = request_line(pt, case, obs['impl'])
     kinds = ptgen.spec_kinds(case['spec'])
     keep = ptgen.all_atoms_keep_channel(pt, {c: c for c in pt.defined_channels})
+    complete = set(pt.parameter_names) <= set(case['params'])
     return {'case': case_json(case), 'impl': obs['impl'], 'line': line,
-            'meta': {'kinds': kinds, 'depth': ptgen.spec_depth(case['spec']), 'keep': keep},
+            'meta': {'kinds': kinds, 'depth': ptgen.spec_depth(case['spec']), 'keep': keep, 'complete': complete},
             'family': desc['family'], 'label': desc.get('label', desc['family'])}
 
 
@@ -482,7 +483,8 @@ def diff_model(rec) -> List[str]:
     """(a) the real symbolic results against the Lean model of the closed forms"""
     impl, reply = rec['impl'], rec['reply']
     d: List[str] = []
-    rejected = impl['status'] == 'error'    # not an accepted assignment: only values that both sides produce count
+    # not an accepted assignment (rejected, or a declared parameter is missing): only values that both sides produce count
+    rejected = impl['status'] == 'error' or not rec['meta'].get('complete', True)
     for qi, q in enumerate(QUANTS):
         iq = impl['q'][q]
         if rejected and isinstance(iq, str) and iq.startswith('error:'):
@@ -511,6 +513,10 @@ def diff_model(rec) -> List[str]:
             elif iv[0] != m[0]:
                 if (m[0] == 'error' and m[1] == 'unsupported') or rejected:
                     continue            # outside the modelled fragment (counted by the caller) / not accepted
+                if m[0] == 'error' and m[1] in ('parameter_missing', 'other:ExpressionVariableMissingException'):
+                    # sympy simplified the missing parameter away (0*x, x - x): the expression needs fewer parameters
+                    # than the template; the value itself is still judged against the instantiated pulse
+                    continue
                 d.append('%s[%s]: implementation %s, model %s' % (q, ch, iv, m))
         if isinstance(iq, dict):
             extra = sorted(set(iq) - set(reply['chans']))
@@ -557,6 +563,10 @@ def judge(rec) -> Tuple[List[dict], List[dict]]:
         return viol, known          # the parameter assignment is not accepted
     if not reply['regular']:
         return viol, known          # negative duration / count, non exact integers: outside the quantifier
+    if not rec['meta'].get('complete', True):
+        # a declared parameter is missing (create_program only notices if the parameter is actually used): not an
+        # accepted parameter assignment
+        return viol, known
     if not rec['meta']['keep']:
         # an atomic leaf all of whose channels are dropped by a mapping vanishes together with its duration (C04 makes
         # the same exception): the closed forms of channels added around it describe a pulse that is not instantiated
@@ -670,6 +680,8 @@ def assess(ctx, rec, count=True):
             ctx.count('not-regular')
         if not rec['meta']['keep']:
             ctx.count('leaf-without-channel')
+        if not rec['meta'].get('complete', True):
+            ctx.count('declared-parameter-missing')
         for q in QUANTS:
             iq = impl['q'][q]
             ctx.count('%s:%s' % (q, 'values' if isinstance(iq, dict) else iq))
@@ -806,7 +818,7 @@ def simpson_tests(ctx):
     from qupulse.program.loop import to_waveform
     rng = ctx.fork('simpson')
     exprs = ['sin(w*t) + v', 'v*t**2 - t', 'exp(-t/2)*v', 'cos(w*t)*t', 'v*t**3/4 + i*t', 'sqrt(t + 1)*v']
-    n_cases = ctx.n(40, 400)
+    n_cases = ctx.n(30, 400)
     bad = 0
     done = 0
     for k in range(n_cases):
@@ -815,6 +827,8 @@ def simpson_tests(ctx):
         f = FunctionPT(e, dur, 'A')
         params = {'w': rng.choice([0.5, 1.0, 2.0, 3.0]), 'v': rng.randrange(-16, 17) / 8, 'd': rng.choice([0.5, 1.0, 2.0, 4.0])}
         shape = rng.choice(['plain', 'seq', 'rep', 'for', 'map'])
+        if shape == 'map' and 'v' not in f.parameter_names:
+            shape = 'plain'
         if 'i' in f.parameter_names and shape != 'for':
             params['i'] = rng.randrange(-2, 3)
         if shape == 'plain':
@@ -943,10 +957,10 @@ def run(ctx: core.Ctx):
                                  'mapping, scalar arithmetic, reversal, parallel channel and binary sequencing: %d trees' % len(ex))
     base = ctx.fork('random').getrandbits(48)
     depth = 4 if ctx.quick else 5
-    for i in range(ctx.n(450, 12000)):
+    for i in range(ctx.n(600, 12000)):
         descs.append({'family': 'random', 'seed': base + i, 'depth': depth})
     base = ctx.fork('malformed').getrandbits(48)
-    for i in range(ctx.n(60, 1200)):
+    for i in range(ctx.n(50, 1200)):
         descs.append({'family': 'malformed', 'seed': base + i})
     recs = run_descs(ctx, descs)
     for rec in recs:
